@@ -2015,9 +2015,12 @@ class IMAPClientCommand:
         # We must match the case insensitive string 'mailbox' first because
         # our other mailbox names are case sensitive.
         #
-        mbox_name = self._p_simple_string("inbox", silent=True)
-        if mbox_name is None:
-            mbox_name = self._p_astring()
+        # NOTE: Only the whole name `inbox` (in any case) is the inbox. A name
+        #       that merely begins with it (`inboxes`, `inbox/old`) is not.
+        #
+        mbox_name = self._p_astring()
+        if mbox_name.lower() == "inbox":
+            return "inbox"
         if mbox_name != "":
             mbox_name = os.path.normpath(mbox_name)
 
